@@ -27,7 +27,7 @@ def findings():
     out.append("|---|---|---|---|")
     for d in known:
         m = d.get("match", {})
-        key = m.get("key") or (m.get("key_prefix", "") + "*")
+        key = m.get("key") or ", ".join(m.get("keys") or []) or (m.get("key_prefix", "") + "*")
         out.append("| %s | `%s` | %s | %s |" % (d["property"], esc(key)[:90], esc(d["what"])[:400], esc(d.get("why_not_fixed", d.get("why", "")))[:300]))
     return "\n".join(out)
 
